@@ -925,8 +925,20 @@ namespace
                 T["refs"] = refsOf(C);
                 if (auto* CE = dyn_cast<Expr>(C))
                 {
-                    // structured view of simple conditions: [!] a OP b
+                    // structured view of simple conditions: [!] a OP b.  In a short-circuit chain the block that
+                    // carries the if/while terminator evaluates only the right-most leaf of the condition.
                     const Expr* E = strip(CE);
+                    if (!isa<BinaryOperator>(TS))
+                    {
+                        for (;;)
+                        {
+                            auto* LB = dyn_cast<BinaryOperator>(E);
+                            if (!LB || !LB->isLogicalOp())
+                                break;
+                            E = strip(LB->getRHS());
+                            T["leaf"] = true;
+                        }
+                    }
                     bool neg = false;
                     while (auto* U = dyn_cast<UnaryOperator>(E))
                     {
